@@ -1,7 +1,7 @@
 (* val-level entry points: one [run_*] (the model's output for a harness case)
    and one [holds_*] (the property's direct oracle on an observed behaviour)
    per family.  These are what the OCaml driver calls. *)
-From GoSse Require Import Base Lines Fields.
+From GoSse Require Import Base Lines Fields Queue Replayers Fifo.
 
 (* ---- family "fields" (C14) ------------------------------------------------ *)
 Definition enc_route (r : route_result) : val :=
@@ -42,3 +42,122 @@ Definition holds_fields (i o : val) : bool :=
               else negb set && (if as_n (nth_val 0 i) =? 4 then true else err)
   | None => true
   end.
+
+(* ---- families "finite" / "valid" (C08 C09 C18) ----------------------------- *)
+
+Definition dec_field (v : val) : field := as_opt as_b v.
+Definition dec_topics (v : val) : list bytes := map as_b (as_l v).
+Definition dec_script (v : val) : list N := map as_n (as_l v).
+
+Definition enc_put_res (r : put_res) : val :=
+  match r with
+  | PutOk id => VL [VN 0; VB id]
+  | PutErr ENoTopic => VL [VN 1; VN 1]
+  | PutErr ENoID => VL [VN 1; VN 2]
+  | PutErr EHasID => VL [VN 1; VN 3]
+  end.
+Definition enc_call (c : wcall) : val :=
+  match c with CSend tok id => VL [VN tok; VB id] | CFlush => VL [] end.
+Definition enc_replay_res (r : list wcall * N) : val := VL [VL (map enc_call (fst r)); VN (snd r)].
+Definition enc_slot (with_exp : bool) (s : option entry) : val :=
+  match s with
+  | None => VL []
+  | Some e => if with_exp then VL [VN (e_tok e); VZ (e_exp e)] else VL [VN (e_tok e)]
+  end.
+Definition enc_queue (with_exp : bool) (q : queue entry) : val :=
+  VL [vnat (head q); vnat (tail q); vnat (count q); VL (map (enc_slot with_exp) (buf q))].
+Definition vpanic : val := VB [112; 97; 110; 105; 99].
+
+(* input : (n<N> n<auto> (op ...));  op = (n0 idopt n<tok> topics) | (n1 idopt topics script)
+   output: ((result state) ...) *)
+Definition dec_fop (op : val) : fop :=
+  match as_n (nth_val 0 op) with
+  | 0 => FPut (dec_field (nth_val 1 op)) (as_n (nth_val 2 op)) (dec_topics (nth_val 3 op))
+  | _ => FReplay (dec_field (nth_val 1 op)) (dec_topics (nth_val 2 op)) (dec_script (nth_val 3 op))
+  end.
+Definition enc_rout (o : rout) : val :=
+  match o with OPut r => enc_put_res r | OReplay r => enc_replay_res r | OGC => VL [] end.
+
+Definition run_finite (i : val) : val :=
+  match fr_new (as_nat (nth_val 0 i)) (as_bool (nth_val 1 i)) with
+  | None => VL [VN 1]
+  | Some s =>
+      let '(tr, ok) := fr_trace s (map dec_fop (as_l (nth_val 2 i))) in
+      VL [VN 0; VL (map (fun p : rout * fstate => VL [enc_rout (fst p); enc_queue false (f_q (snd p))]) tr
+                    ++ (if ok then [] else [vpanic]))]
+  end.
+
+(* the specification's outputs for the same history *)
+Definition spec_finite_ops (s : fspec) (ops : list val) : list val :=
+  map enc_rout (fs_run s (map dec_fop ops)).
+
+Fixpoint val_eqb (a b : val) {struct a} : bool :=
+  match a, b with
+  | VN x, VN y => x =? y
+  | VZ x, VZ y => (x =? y)%Z
+  | VB x, VB y => bytes_eqb x y
+  | VL x, VL y =>
+      (fix go (x y : list val) : bool :=
+         match x, y with
+         | [], [] => true
+         | a' :: x', b' :: y' => val_eqb a' b' && go x' y'
+         | _, _ => false
+         end) x y
+  | _, _ => false
+  end.
+
+(* direct oracle for C08: the observed results (state ignored) are the spec's *)
+Definition holds_finite (i o : val) : bool :=
+  if (as_nat (nth_val 0 i) <? 2)%nat then val_eqb o (VL [VN 1])
+  else
+    val_eqb (VL (map (nth_val 0) (as_l (nth_val 1 o))))
+            (VL (spec_finite_ops (fs_new (as_nat (nth_val 0 i)) (as_bool (nth_val 1 i))) (as_l (nth_val 2 i)))).
+
+(* direct oracle for C18 (finite): after every operation the occupied slots are at most N *)
+Definition occupied (st : val) : nat := length (filter (fun s => negb (val_eqb s (VL []))) (as_l (nth_val 3 st))).
+Definition holds_finite_slots (i o : val) : bool :=
+  forallb (fun r => (occupied (nth_val 1 r) <=? as_nat (nth_val 0 i))%nat && (occupied (nth_val 1 r) =? as_nat (nth_val 2 (nth_val 1 r)))%nat)
+          (as_l (nth_val 1 o)).
+
+(* valid: input (z<ttl> n<auto> gciopt (op ...));
+   op = (n0 z<now> idopt n<tok> topics) | (n1 z<now> idopt topics script) | (n2 z<now>) *)
+Definition dec_vop (op : val) : vop :=
+  let now := as_z (nth_val 1 op) in
+  match as_n (nth_val 0 op) with
+  | 0 => VPut now (dec_field (nth_val 2 op)) (as_n (nth_val 3 op)) (dec_topics (nth_val 4 op))
+  | 1 => VReplay now (dec_field (nth_val 2 op)) (dec_topics (nth_val 3 op)) (dec_script (nth_val 4 op))
+  | _ => VGC now
+  end.
+
+Definition run_valid (i : val) : val :=
+  match vr_new (as_z (nth_val 0 i)) (as_bool (nth_val 1 i)) (as_opt as_z (nth_val 2 i)) with
+  | None => VL [VN 1]
+  | Some s =>
+      let '(tr, ok) := vr_trace s (map dec_vop (as_l (nth_val 3 i))) in
+      VL [VN 0; VL (map (fun p : rout * vstate => VL [enc_rout (fst p); enc_queue true (v_q (snd p))]) tr
+                    ++ (if ok then [] else [vpanic]))]
+  end.
+
+Definition spec_valid_ops (s : vspec) (ops : list val) : list val :=
+  map enc_rout (vs_run s (map dec_vop ops)).
+
+Definition holds_valid (i o : val) : bool :=
+  if (as_z (nth_val 0 i) <=? 0)%Z then val_eqb o (VL [VN 1])
+  else
+    val_eqb (VL (map (nth_val 0) (as_l (nth_val 1 o))))
+            (VL (spec_valid_ops (vs_new (as_z (nth_val 0 i)) (as_bool (nth_val 1 i)) (as_opt as_z (nth_val 2 i)))
+                                (as_l (nth_val 3 i)))).
+
+(* direct oracle for C18 (valid): occupied slots = count, and right after an
+   explicit GC at [now] no occupied slot holds an entry with exp <= now *)
+Definition slot_expired (now : Z) (s : val) : bool :=
+  match s with VL [_; VZ e] => (e <=? now)%Z | _ => false end.
+Definition holds_valid_slots (i o : val) : bool :=
+  forallb (fun p : val * val =>
+             let (op, r) := p in
+             let st := nth_val 1 r in
+             (occupied st =? as_nat (nth_val 2 st))%nat &&
+             (if as_n (nth_val 0 op) =? 2
+              then negb (existsb (slot_expired (as_z (nth_val 1 op))) (as_l (nth_val 3 st)))
+              else true))
+          (combine (as_l (nth_val 3 i)) (as_l (nth_val 1 o))).
